@@ -38,6 +38,7 @@ type c11Case struct {
 	Plugins  []c11Plugin       `json:"plugins"`
 	Limit    string            `json:"limit,omitempty"` // --plugin-time-limit ("" = default 1m)
 	Quiet    bool              `json:"quiet,omitempty"`
+	NoOut    bool              `json:"no_out,omitempty"` // no -o on the command line: every language writes to ./gen-<language>
 	Compress bool              `json:"compress,omitempty"`
 	Strategy string            `json:"strategy,omitempty"`
 	Par      int               `json:"parallelism,omitempty"`
@@ -116,6 +117,17 @@ func (c *c11Case) spec() *simrt.Spec {
 		cc.Prelude = append(cc.Prelude, pc.spec(0).Args)
 	}
 	sp := cc.spec(c.Seed)
+	if c.NoOut {
+		var args []string
+		for i := 0; i < len(sp.Args); i++ {
+			if sp.Args[i] == "-o" && i+1 < len(sp.Args) && sp.Args[i+1] == "/work/out" {
+				i++
+				continue
+			}
+			args = append(args, sp.Args[i])
+		}
+		sp.Args = args
+	}
 	for _, e := range extras {
 		b, _ := json.Marshal(e.script)
 		sp.Programs[e.path] = b
@@ -421,8 +433,12 @@ func c11Judge(c *c11Case, wr *worldRun) *c11Verdict {
 			if strings.Join(wantPP, "\x00") != strings.Join(gotPP, "\x00") {
 				return bad("plugin-parameters", "plugin-parameters", "plugin %s got plugin parameters %q, the command line says %q", pl.Name, gotPP, wantPP)
 			}
-			if op := noteStr(pr.Notes, "req.output_path"); op != "/work/out" {
-				return bad("output-path", "output-path", "plugin %s was told output path %q, the command line says /work/out", pl.Name, op)
+			wantOut := "/work/out"
+			if c.NoOut {
+				wantOut = "./gen-" + lang
+			}
+			if op := noteStr(pr.Notes, "req.output_path"); op != wantOut {
+				return bad("output-path", "output-path", "plugin %s (language %s) was told output path %q, the command line says %s", pl.Name, lang, op, wantOut)
 			}
 			var rec bool
 			json.Unmarshal(pr.Notes["req.recursive"], &rec)
@@ -719,6 +735,7 @@ func c11GenCase(seed uint64, bo *backendOpts, corp []*program, idx int) *c11Case
 	}
 	c.Limit = []string{"", "", "0", "50ms", "1s", "1m", "3s"}[r.Intn(7)]
 	c.Quiet = r.Chance(1, 8)
+	c.NoOut = r.Chance(1, 6) || (c.Second != nil && r.Chance(1, 2))
 	c.Compress = r.Chance(1, 2)
 	c.Strategy = []string{"random", "rtb", "pct"}[r.Intn(3)]
 	c.Par = 1 + r.Intn(16)
